@@ -22,6 +22,8 @@ type Program struct {
 	Pkgs  []*packages.Package
 	I     *interpreter
 	inits []*ssa.Package
+	// Setups are harness functions run once, concretely, after package initialisation.
+	Setups []*ssa.Function
 	// snapshot of globals after initialisation (restored before every path)
 	snap map[*ssa.Global]value
 }
@@ -137,6 +139,9 @@ func (p *Program) Init() (err error) {
 			call(i, nil, token.NoPos, f, nil)
 		}
 	}
+	for _, f := range p.Setups {
+		call(i, nil, token.NoPos, f, nil)
+	}
 	// snapshot the globals: harness paths must start from identical initial state
 	p.snap = map[*ssa.Global]value{}
 	for g, cell := range i.globals {
@@ -179,10 +184,12 @@ type RunOptions struct {
 	Known       []KnownFinding
 	SMTLog      string
 	MaxTraces   int
-	SplitIndex  int // worker k of n: forced first decisions
-	SplitCount  int
-	ForcePrefix []Decision
+	FrontierTarget int          // phase 1: stop when this many prefixes are pending
+	Initial        [][]Decision // phase 2: explore exactly these subtrees
 }
+
+// LastFrontier holds the pending prefixes after a phase-1 run.
+var LastFrontier [][]Decision
 
 // Explore runs harness function fn (no parameters) over all feasible paths.
 func (p *Program) Explore(fn *ssa.Function, opt RunOptions) (*Result, error) {
@@ -219,7 +226,12 @@ func (p *Program) Explore(fn *ssa.Function, opt RunOptions) (*Result, error) {
 	if opt.MaxTraces >= 0 {
 		e.MaxTraces = opt.MaxTraces
 	}
+	e.FrontierTarget = opt.FrontierTarget
+	e.Initial = opt.Initial
+	defer func() { LastFrontier = e.Frontier }()
 	eng = e
+	undoOn = true
+	defer func() { undoOn = false }()
 	e.Explore(func() {
 		p.restoreGlobals()
 		resetRuntime()
@@ -227,6 +239,7 @@ func (p *Program) Explore(fn *ssa.Function, opt RunOptions) (*Result, error) {
 			if sched != nil && len(sched.threads) > 1 {
 				sched.killAll()
 			}
+			rollback()
 		}()
 		call(p.I, nil, token.NoPos, fn, nil)
 	})
